@@ -62,12 +62,12 @@ theorem steps_scell (p : Bool) (r c cur : Nat) (cell : SCell) (hr : r < 1048576)
       .ok ⟨.rows, r, c + 1, (r, c, v.getD []) :: out, tb'⟩ := by
     intro v tb'; simp [XlsxFormula.steps, XlsxFormula.step, hsat]
   have hval : ∀ (v : Option Bytes) (tb' : Table),
-      XlsxFormula.steps ⟨.cell (r, c) v, r, c, out, tb'⟩ (if cell.value then vEvents p [49] else []) =
+      XlsxFormula.steps ⟨.cell (r, c) v, r, c, out, tb'⟩ (if cell.value then vEventsPlain p [49] else []) =
         .ok ⟨.cell (r, c) v, r, c, out, tb'⟩ := by
     intro v tb'
     cases cell.value with
     | false => simp [XlsxFormula.steps]
-    | true => simpa using XlsxFormula.steps_v p (r, c) v r c out tb' [49]
+    | true => simp [vEventsPlain, XlsxFormula.steps, XlsxFormula.step, getAttr]
   obtain ⟨f, value⟩ := cell
   simp only [renderCell]
   cases f with
